@@ -47,6 +47,15 @@ type regOut struct {
 
 func drawCfg(r sim.Rand, tight bool) world.NodeCfg {
 	cfg := world.NodeCfg{Storage: "zstd", Zstd: "go", ValidateAC: true, DepsCheck: true}
+	// buggify knobs of the harness seams (per run)
+	if s := sim.Cur(); s != nil {
+		if r.Chance(1, 3) {
+			s.Knobs["rd.eof-with-data"] = 1
+		}
+		if r.Chance(1, 6) {
+			s.Knobs["rd.max-read"] = []int{1000, 7, 65536}[r.Intn(3)]
+		}
+	}
 	if r.Chance(1, 3) {
 		cfg.Storage = "uncompressed"
 	}
